@@ -348,18 +348,100 @@ def fam_protocol(r, c):
     return [[name] + [r.choice([c.key(r), c.pfx + c.val(r)]) for _ in range(r.randrange(0, 6))]]
 
 
-# name -> (weight, generator).  The integrator widens the check by adding entries here once the
-# family is in Mem/Exec.v `families` (e.g. "sets": (3, fam_sets)).
+# ----------------------------------------------------------------------------- the other families
+# The hash / set / sorted-set / stream generators of their own checks (gen_hash, gen_set, gen_zset,
+# gen_stream) are reused.  What the TCP setting adds:
+#  * the real clock: nothing that sets a deadline, no stream id taken from the clock (`*`);
+#  * one long-lived server shared by all programs: every key position is forced into the
+#    program's namespace (the wrong-arity branches of those generators draw keys from anywhere),
+#    KEYS only with a namespaced pattern.
+from . import gen_hash, gen_set, gen_stream, gen_zset  # noqa: E402
+
+TTL_NAMES = {b"expire", b"setex", b"pexpire", b"expireat"}
+MULTI_KEY = {b"sunion", b"sinter", b"sdiff", b"sunionstore", b"sinterstore", b"sdiffstore", b"smove", b"rename", b"del",
+             b"exists", b"mget", b"mset", b"lmove", b"blpop", b"brpop"}
+
+
+def namespaced(cmd, pfx):
+    """None when the command cannot be used over TCP; otherwise the command with its key
+    positions inside the namespace."""
+    if not cmd:
+        return cmd
+    name = cmd[0].lower()
+    if name in TTL_NAMES or name in (b"blpop", b"brpop"):
+        return None
+    if name == b"set" and any(a.lower() in (b"ex", b"px", b"exat", b"pxat") for a in cmd[3:]):
+        return None
+    if name == b"xadd" and any(a == b"*" for a in cmd[2:]):
+        return None            # the id would come from the server's clock
+    if name == b"keys":
+        return [cmd[0], pfx + b"*"] + cmd[2:]
+    out = list(cmd)
+    rng = range(1, len(out)) if name in MULTI_KEY else range(1, min(2, len(out)))
+    for i in rng:
+        if not out[i].startswith(pfx):
+            out[i] = pfx + out[i]
+    return out
+
+
+def _draw(c, r, gen):
+    for _ in range(50):
+        cmd = namespaced(gen(), c.pfx)
+        if cmd is not None:
+            return [cmd]
+    return [[b"ping"]]
+
+
+def fam_hashes(r, c):
+    st = c.__dict__.setdefault("hash_nfields", {})
+    return _draw(c, r, lambda: gen_hash.hash_cmd(r, c.keys, st))
+
+
+def fam_sets(r, c):
+    if "set_st" not in c.__dict__:
+        c.set_st = gen_set.St(c.keys, r.sample(gen_set.MEMBERS, r.randrange(3, 9)))
+    return _draw(c, r, lambda: gen_set.set_cmd(r, c.set_st))
+
+
+def fam_zsets(r, c):
+    if "zmode" not in c.__dict__:
+        c.zmode, c.zbig = r.choice(["dyadic", "dyadic", "decimal"]), r.random() < 0.4
+    return _draw(c, r, lambda: gen_zset.zset_cmd(r, c.keys, c.zmode, c.zbig))
+
+
+def fam_streams(r, c):
+    if "xtr" not in c.__dict__:
+        c.xtr = gen_stream.Tracker(gen_stream.T0)
+        c.xtr.good = r.choice([0.2, 0.5, 0.8])
+    tr = c.xtr
+
+    def g():
+        q = r.randrange(100)
+        if q < 50:
+            return gen_stream.xadd(r, tr, c.keys)
+        if q < 80:
+            return gen_stream.xrange_(r, tr, c.keys)
+        if q < 92:
+            return gen_stream.other_cmd(r, tr, c.keys)
+        return gen_stream.malformed(r, tr, c.keys)
+    return _draw(c, r, g)
+
+
+# name -> (weight, generator): the command families of Mem/Exec.v `families` (+ protocol errors).
 FAMILIES = {
     "strings": (4, fam_strings),
     "lists": (4, fam_lists),
+    "hashes": (3, fam_hashes),
+    "sets": (3, fam_sets),
+    "zsets": (3, fam_zsets),
+    "streams": (3, fam_streams),
     "protocol": (2, fam_protocol),
 }
 
 
 class Program:
-    def __init__(self, name, cmds):
-        self.name, self.cmds = name, cmds
+    def __init__(self, name, cmds, families=()):
+        self.name, self.cmds, self.families = name, cmds, list(families)
 
     def stream(self):
         return encode_pipeline(self.cmds)
@@ -379,8 +461,11 @@ def gen_programs(seed, n, families=None, maxlen=24):
             cmds.append([b"set", c.keys[0], c.val(r)])
         if r.random() < 0.5:
             cmds.append([b"rpush", c.keys[-1]] + [c.val(r) for _ in range(r.randrange(1, 5))])
+        # a program concentrates on two or three families so that keys of one type build up state
+        mine = r.sample(names, min(len(names), r.randrange(2, 4)))
+        w = [fams[f][0] for f in mine]
         while len(cmds) < ln:
-            f = r.choices(names, weights)[0]
+            f = r.choices(mine, w)[0]
             cmds.extend(fams[f][1](r, c))
-        progs.append(Program("p%d" % i, cmds))
+        progs.append(Program("p%d" % i, cmds, mine))
     return progs
